@@ -391,7 +391,7 @@ func main() {
 		out := feegen.SumOut(st).Uint64()
 		var hist []response
 		for i := 0; i < n; i++ {
-			us := []utxo{mkU(r, scale(q)+out/uint64(n-9)+uint64(r.Intn(5)))}
+			us := []utxo{mkU(r, scale(q)+out/uint64(n-1)+uint64(r.Intn(2)))}
 			if i%50 == 7 {
 				us = append(us, mkU(r, scale(q)+1))
 			}
